@@ -22,7 +22,45 @@ pub fn generate_mixed(rng: &mut Rng, thorough: bool, n_quick: usize) -> Vec<Valu
         };
         out.push(lib_input(rng, hostile, 4, nested, kind));
     }
+    // appended after the main stream (so that the cases above do not move): long ordered lists.
+    // Item numbers of three digits widen the marker; blocks that continue such an item (sub-list,
+    // second paragraph, code, quote) must stay inside it.  Inert words only.
+    for v in 0..(if thorough { 12 } else { 4 }) {
+        out.push(long_list_input(rng, v));
+    }
     out
+}
+
+fn long_list_input(rng: &mut Rng, variant: usize) -> Value {
+    let n = 100 + rng.range(0, 9);
+    let start = if variant % 4 == 3 { 1 + rng.range(0, 1) } else { 1 };
+    let mut body = String::new();
+    for i in 0..n {
+        let num = start + i;
+        let marker = format!("{}.", num);
+        let pad = " ".repeat(marker.len() + 1);
+        body.push_str(&format!("{} {} {}\n", marker, gen::word(rng, false), num));
+        if num >= 98 || rng.chance(1, 30) {
+            match (variant + i) % 5 {
+                0 => body.push_str(&format!("{}- {}\n{}- {}\n", pad, gen::word(rng, false), pad, gen::word(rng, false))),
+                1 => body.push_str(&format!("\n{}{} {}\n\n", pad, gen::word(rng, false), gen::word(rng, false))),
+                2 => body.push_str(&format!("\n{}```\n{}{}\n{}```\n\n", pad, pad, gen::word(rng, false), pad)),
+                3 => body.push_str(&format!("\n{}> {}\n\n", pad, gen::word(rng, false))),
+                _ => {}
+            }
+        }
+    }
+    let text = match variant % 3 {
+        0 => format!("# {}\n\n{}\n{}\n", gen::word(rng, false), body, gen::word(rng, false)),
+        1 => format!("# {}\n\n## {}\n\n{}", gen::word(rng, false), gen::word(rng, false), body),
+        _ => {
+            // the same list inside a block quote
+            let quoted: String = body.lines().map(|l| if l.is_empty() { ">\n".to_string() } else { format!("> {}\n", l) }).collect();
+            format!("# {}\n\n{}", gen::word(rng, false), quoted)
+        }
+    };
+    let ext = if variant % 2 == 1 { ".md" } else { "" };
+    json!({"ext": ext, "kind": "long-list", "notes": [["a", text]]})
 }
 
 pub fn label(v: &Value) -> String {
